@@ -7,6 +7,7 @@ import (
 	"encoding/json"
 	"fmt"
 	"reflect"
+	"strconv"
 
 	"github.com/brocaar/lorawan"
 	"github.com/brocaar/lorawan/band"
@@ -472,6 +473,54 @@ func bandIsoEvent(c *ctx, name band.Name) (M, error) {
 	return M{"ev": "bandiso", "bname": b.Name(), "before": before, "after": after, "fresh": fp, "mutated": !reflect.DeepEqual(ap, before)}, nil
 }
 
+// bandIso2: two objects of one band are mutated one after the other; the first must keep its state while the
+// second changes, and the second must end exactly like an object that received the same operations alone.
+func (c *ctx) genBandOps(chans []band.VerifChannel, extra bool) []M {
+	var ops []M
+	n := len(chans)
+	for i := 0; i < 1+c.rnd.Intn(3); i++ {
+		if extra && c.rnd.Intn(3) != 0 {
+			f := c.bandFreq(chans)/100*100 + 100*uint32(1+c.rnd.Intn(50))
+			ops = append(ops, M{"op": "add", "rawf": strconv.FormatUint(uint64(f), 10), "min": c.rnd.Intn(3), "max": 3 + c.rnd.Intn(3)})
+			n++
+		} else if c.rnd.Intn(2) == 0 {
+			ops = append(ops, M{"op": "disable", "i": c.rnd.Intn(n)})
+		} else {
+			ops = append(ops, M{"op": "enable", "i": c.rnd.Intn(n)})
+		}
+	}
+	return ops
+}
+
+func bandIso2Event(c *ctx, name band.Name) (M, error) {
+	a, err := band.GetConfig(name, false, lorawan.DwellTimeNoLimit)
+	if err != nil {
+		return nil, err
+	}
+	b, _ := band.GetConfig(name, false, lorawan.DwellTimeNoLimit)
+	p0, chans, err := planProjection(a)
+	if err != nil {
+		return nil, err
+	}
+	extra := p0["extra"].(bool)
+	opsA, opsB := c.genBandOps(chans, extra), c.genBandOps(chans, extra)
+	for _, op := range opsA {
+		applyOpDesc(a, op)
+	}
+	aBefore, _, _ := planProjection(a)
+	for _, op := range opsB {
+		applyOpDesc(b, op)
+	}
+	aAfter, _, _ := planProjection(a)
+	bp, _, _ := planProjection(b)
+	solo, _ := band.GetConfig(name, false, lorawan.DwellTimeNoLimit)
+	for _, op := range opsB {
+		applyOpDesc(solo, op)
+	}
+	sp, _, _ := planProjection(solo)
+	return M{"ev": "bandiso2", "bname": a.Name(), "abefore": aBefore, "aafter": aAfter, "b": bp, "solo": sp, "nops": len(opsA) + len(opsB)}, nil
+}
+
 func drvOwn(c *ctx) error {
 	switch c.mode {
 	case "sequences":
@@ -498,6 +547,13 @@ func drvOwn(c *ctx) error {
 				return err
 			}
 			c.emit(ev)
+			for k := 0; k < 4; k++ {
+				ev, err = bandIso2Event(c, bandNames[i%14])
+				if err != nil {
+					return err
+				}
+				c.emit(ev)
+			}
 		}
 	default:
 		return fmt.Errorf("own: unknown mode %q", c.mode)
